@@ -184,6 +184,16 @@ def enumerate_faults(world, opts, facts):
     nolang = [c for c in fc.get("catalogs", []) if c not in fc["languages"]]
     if nolang:
         out.append({"class": "cmdline", "kind": "language_without_templates", "value": nolang[0]})
+    # region / case variants of a shipped language that the tree ships neither templates nor a catalog for (README: -g takes one of the
+    # shipped language codes): "en_GB" is not "en"
+    for lang in fc["languages"]:
+        if "_" not in lang and len(lang) == 2:
+            variant = {"en": "en_GB", "ja": "ja_JP", "es": "es_ES", "kl": "kl_GL"}.get(lang, lang + "_" + lang.upper())
+            if variant not in fc["languages"] and variant not in fc.get("mentioned_languages", []):
+                out.append({"class": "cmdline", "kind": "language_region_variant", "value": variant})
+            if lang.upper() not in fc["languages"]:
+                out.append({"class": "cmdline", "kind": "language_case_variant", "value": lang.upper()})
+            break
     out.append({"class": "cmdline", "kind": "from_after_to"})
     out.append({"class": "cmdline", "kind": "malformed_date", "opt": "-f", "value": "2020-13-45"})
     out.append({"class": "cmdline", "kind": "malformed_date", "opt": "-t", "value": "yesterday"})
@@ -223,6 +233,13 @@ def enumerate_oddities(world, opts, facts=None):
     for kind in ("config_crlf", "config_bom", "config_inline_comments", "config_uppercase_keys", "config_default_section", "config_trailing_garbage_line",
                  "extra_sheet_with_table", "sheet_name_padded"):
         out.append({"class": "oddity", "kind": kind})
+    # XML features of the spreadsheet container that a parser may or may not resolve: an external entity / DTD served over http, and one
+    # pointing at a local file (loopback discard port, refused at once if ever tried: nothing must be contacted; libxml2 would do so below Python, where only the
+    # system-call monitor can see it)
+    for kind in ("ods_external_http_entity", "ods_external_http_dtd", "ods_external_file_entity", "ods_xinclude_http"):
+        out.append({"class": "oddity", "kind": kind})
+    for part in ("META-INF/manifest.xml", "styles.xml", "meta.xml", "settings.xml"):
+        out.append({"class": "oddity", "kind": "ods_part_http_entity", "part": part})
     if facts:
         fc = facts[opts["country"]]
         # half-supported generation languages: mentioned somewhere in the tree (a locale directory, a template) but not shipped completely
@@ -454,7 +471,7 @@ def apply_fault(world, opts, fault):
     elif cls == "cmdline":
         if kind in ("method_and_schedule", "method_not_accepted", "method_unknown"):
             opts["method"] = fault["value"]
-        elif kind in ("unknown_language", "language_without_catalog", "language_without_templates"):
+        elif kind in ("unknown_language", "language_without_catalog", "language_without_templates", "language_region_variant", "language_case_variant"):
             opts["lang"] = fault["value"]
         elif kind == "from_after_to":
             opts["from"], opts["to"] = "2021-06-02", "2021-06-01"
@@ -490,7 +507,76 @@ def apply_fault(world, opts, fault):
         for name in world.get("extra_sheets", []):
             sheets.append((name, [[None, "scratch"], [None, 3.5]]))
         ods = odswriter.ods_bytes(sheets)
+    if cls == "oddity" and kind == "ods_part_http_entity":
+        ods = _entity_in_part(ods, fault["part"])
+    elif cls == "oddity" and kind.startswith("ods_"):
+        ods = _rewrite_content(ods, kind)
     return config_text, ods, opts
+
+
+def _entity_in_part(ods, part):
+    """Declare an external general entity (http, loopback discard port) in one XML part of the container and reference it in element
+    content; a part the writer does not produce is added."""
+    import io  # pylint: disable=import-outside-toplevel
+    import re  # pylint: disable=import-outside-toplevel
+    import zipfile  # pylint: disable=import-outside-toplevel
+
+    buf = io.BytesIO()
+    seen = False
+    with zipfile.ZipFile(io.BytesIO(ods)) as zin, zipfile.ZipFile(buf, "w") as zout:
+        for item in zin.infolist():
+            data = zin.read(item.filename)
+            if item.filename == part:
+                seen = True
+                text = data.decode("utf-8")
+                m = re.search(r"<([A-Za-z_][\w:.-]*)", text[text.index("?>") + 2:] if text.startswith("<?xml") else text)
+                root = m.group(1)
+                start = text.index("<" + root)
+                dtd = '<!DOCTYPE %s [<!ENTITY vendor SYSTEM "http://127.0.0.1:9/rp2sim-%s.txt">]>' % (root, root.replace(":", "-"))
+                close = text.rindex("</" + root)
+                text = text[:start] + dtd + text[start:close] + "&vendor;" + text[close:]
+                data = text.encode("utf-8")
+            zout.writestr(item, data)
+        if not seen:
+            root = {"META-INF/manifest.xml": "manifest:manifest", "meta.xml": "office:document-meta", "settings.xml": "office:document-settings",
+                    "styles.xml": "office:document-styles"}[part]
+            ns = root.split(":")[0]
+            uri = "urn:oasis:names:tc:opendocument:xmlns:%s:1.0" % ("manifest" if ns == "manifest" else "office")
+            zout.writestr(part, '<?xml version="1.0" encoding="UTF-8"?><!DOCTYPE %s [<!ENTITY vendor SYSTEM "http://127.0.0.1:9/rp2sim.txt">]><%s xmlns:%s="%s">&vendor;</%s>'
+                          % (root, root, ns, uri, root))
+    return buf.getvalue()
+
+
+def _rewrite_content(ods, kind):
+    """Re-pack the spreadsheet with a content.xml that carries an external reference."""
+    import io  # pylint: disable=import-outside-toplevel
+    import zipfile  # pylint: disable=import-outside-toplevel
+
+    buf = io.BytesIO()
+    with zipfile.ZipFile(io.BytesIO(ods)) as zin, zipfile.ZipFile(buf, "w") as zout:
+        for item in zin.infolist():
+            data = zin.read(item.filename)
+            if item.filename == "content.xml":
+                text = data.decode("utf-8")
+                head, sep, rest = text.partition("?>")
+                if not sep:
+                    head, rest = "", text
+                root_at = rest.index("<office:document-content")
+                pre, doc = rest[:root_at], rest[root_at:]
+                if kind == "ods_external_http_entity":
+                    dtd = '<!DOCTYPE office:document-content [<!ENTITY ext SYSTEM "http://127.0.0.1:9/rp2sim-entity.txt">]>'
+                    doc = doc.replace("</text:p>", "&ext;</text:p>", 1)
+                elif kind == "ods_external_http_dtd":
+                    dtd = '<!DOCTYPE office:document-content SYSTEM "http://127.0.0.1:9/rp2sim.dtd">'
+                elif kind == "ods_external_file_entity":
+                    dtd = '<!DOCTYPE office:document-content [<!ENTITY ext SYSTEM "file:///etc/hostname">]>'
+                    doc = doc.replace("</text:p>", "&ext;</text:p>", 1)
+                else:
+                    dtd = ""
+                    doc = doc.replace("<office:body>", '<office:body><xi:include xmlns:xi="http://www.w3.org/2001/XInclude" href="http://127.0.0.1:9/rp2sim-include.xml"/>', 1)
+                data = (head + sep + pre + dtd + doc).encode("utf-8")
+            zout.writestr(item, data)
+    return buf.getvalue()
 
 
 def _apply_grid_op(world, sheet, grid, index, op):
